@@ -221,6 +221,17 @@ impl Roles {
                     m.insert(r, "omni".into());
                 }
             }
+            // the approver collects both fees
+            "R5" => {
+                m.insert("askfee", "approver".into());
+                m.insert("bidfee", "approver".into());
+            }
+            // the buyer is also an approver, the seller collects the bid fee, the executor the ask fee
+            "R6" => {
+                m.insert("buyer1", "approver".into());
+                m.insert("seller1", "bidfee".into());
+                m.insert("askfee", "exec".into());
+            }
             _ => panic!("unknown role variant {v}"),
         }
         Roles(m)
